@@ -120,7 +120,7 @@ class Mirror:
         """does the operation hit a recorded defect of the pinned tree?"""
         k = op["k"]
         if k in ("close", "rename") and not self.is_open(op["h"]):
-            # finding stale_handle is repaired in /repo (ddd7fb8): operations through the handle of a closed
+            # finding stale_handle is repaired in /repo (4f69f1f): operations through the handle of a closed
             # model are generated with another model registered under its last name
             return False
         if k == "read":
@@ -147,7 +147,7 @@ class Mirror:
             elif k == "close":
                 h = op["h"]
                 if not self.is_open(h):
-                    return 0          # closing a model that is no longer registered is a no-op (/repo ddd7fb8)
+                    return 0          # closing a model that is no longer registered is a no-op (/repo 4f69f1f)
                 del self.reg[self.names[h]]
                 if self.cur == h:
                     self.cur = None
